@@ -28,7 +28,7 @@ Proof. induction 1; cbn [length]; lia. Qed.
 (** *** one call of SendCommandsWithRetry *)
 
 Definition received (b : behav) : bool :=
-  match b with Accept | Reject _ _ | RejectPlain _ => true | _ => false end.
+  match b with Accept | Reject _ _ | RejectPlain _ | HttpBroken true => true | _ => false end.
 
 Definition good_status (s : pstatus) : bool :=
   match s with Up | Syncing => true | _ => false end.
@@ -42,6 +42,7 @@ Definition last_effect (b : behav) (cmds : list str) (dl : list (list str)) (r :
   | Reject c m => dl = [cmds] /\ r = RErr c m /\ sched1 = sched0
   | RejectPlain m => dl = [cmds] /\ r = RErr 500 m /\ sched1 = sched0
   | Refuse => dl = [] /\ (r = RTimeout \/ exists m, r = RErr 500 m) /\ sched1 = sched0
+  | HttpBroken rc => dl = (if rc then [cmds] else []) /\ r = RErr 500 msg_httperr /\ sched1 = sched0
   end.
 
 (** shape of what one call adds to trace [dt] and log [dl] *)
@@ -75,7 +76,7 @@ Lemma attempt_proj p cmds rc sc :
   p_trace p' = p_trace p ++ [(p_status p, fst (next_behav p))] /\
   p_log p' = (if rc then p_log p ++ [cmds] else p_log p) /\
   p_sched p' = (if sc then true else p_sched p) /\
-  p_script p' = snd (next_behav p) /\ p_lasterr p' = p_lasterr p.
+  p_script p' = snd (next_behav p) /\ p_lasterr p' = p_lasterr p /\ p_transport p' = p_transport p.
 Proof.
   unfold attempt. destruct (next_behav p) as [b rest]. cbn. repeat split; reflexivity.
 Qed.
@@ -86,6 +87,51 @@ Lemma conn_failed_proj err p :
   p_log p' = p_log p /\ p_sched p' = p_sched p /\ p_script p' = p_script p /\ p_lasterr p' = err.
 Proof. unfold conn_failed. destruct (p_stale p); cbn; repeat split; reflexivity. Qed.
 
+Lemma set_httpok_proj a p :
+  let p' := set_httpok a p in
+  p_id p' = p_id p /\ p_status p' = p_status p /\ p_hasdata p' = p_hasdata p /\
+  p_stale p' = p_stale p /\ p_resolve p' = p_resolve p /\ p_trace p' = p_trace p /\
+  p_log p' = p_log p /\ p_sched p' = p_sched p /\ p_script p' = p_script p /\ p_lasterr p' = p_lasterr p.
+Proof. unfold set_httpok. destruct (p_transport p); cbn; repeat split; reflexivity. Qed.
+
+(** the projections as rewrite rules *)
+Lemma at_id p c r s : p_id (attempt p c r s) = p_id p. Proof. apply attempt_proj. Qed.
+Lemma at_status p c r s : p_status (attempt p c r s) = p_status p. Proof. apply attempt_proj. Qed.
+Lemma at_resolve p c r s : p_resolve (attempt p c r s) = p_resolve p. Proof. apply attempt_proj. Qed.
+Lemma at_trace p c r s : p_trace (attempt p c r s) = p_trace p ++ [(p_status p, fst (next_behav p))].
+Proof. apply attempt_proj. Qed.
+Lemma at_log p c r s : p_log (attempt p c r s) = (if r then p_log p ++ [c] else p_log p).
+Proof. apply attempt_proj. Qed.
+Lemma at_sched p c r s : p_sched (attempt p c r s) = (if s then true else p_sched p).
+Proof. apply attempt_proj. Qed.
+Lemma at_script p c r s : p_script (attempt p c r s) = snd (next_behav p). Proof. apply attempt_proj. Qed.
+Lemma cf_id e p : p_id (conn_failed e p) = p_id p. Proof. apply conn_failed_proj. Qed.
+Lemma cf_resolve e p : p_resolve (conn_failed e p) = p_resolve p. Proof. apply conn_failed_proj. Qed.
+Lemma cf_trace e p : p_trace (conn_failed e p) = p_trace p. Proof. apply conn_failed_proj. Qed.
+Lemma cf_log e p : p_log (conn_failed e p) = p_log p. Proof. apply conn_failed_proj. Qed.
+Lemma cf_sched e p : p_sched (conn_failed e p) = p_sched p. Proof. apply conn_failed_proj. Qed.
+Lemma cf_lasterr e p : p_lasterr (conn_failed e p) = e. Proof. apply conn_failed_proj. Qed.
+Lemma sh_id a p : p_id (set_httpok a p) = p_id p. Proof. apply set_httpok_proj. Qed.
+Lemma sh_status a p : p_status (set_httpok a p) = p_status p. Proof. apply set_httpok_proj. Qed.
+Lemma sh_resolve a p : p_resolve (set_httpok a p) = p_resolve p. Proof. apply set_httpok_proj. Qed.
+Lemma sh_trace a p : p_trace (set_httpok a p) = p_trace p. Proof. apply set_httpok_proj. Qed.
+Lemma sh_log a p : p_log (set_httpok a p) = p_log p. Proof. apply set_httpok_proj. Qed.
+Lemma sh_sched a p : p_sched (set_httpok a p) = p_sched p. Proof. apply set_httpok_proj. Qed.
+Lemma sh_script a p : p_script (set_httpok a p) = p_script p. Proof. apply set_httpok_proj. Qed.
+
+Ltac psimp :=
+  rewrite ?cf_id, ?cf_resolve, ?cf_trace, ?cf_log, ?cf_sched, ?cf_lasterr,
+          ?sh_id, ?sh_status, ?sh_resolve, ?sh_trace, ?sh_log, ?sh_sched, ?sh_script,
+          ?at_id, ?at_status, ?at_resolve, ?at_trace, ?at_log, ?at_sched, ?at_script.
+
+(** a call that ends with the attempt made now *)
+Ltac one_attempt dl :=
+  split; [|discriminate]; split; [psimp; reflexivity|];
+  eexists [(_, _)], dl; psimp;
+  split; [reflexivity|]; split; [rewrite ?app_nil_r; reflexivity|];
+  match goal with Hst : p_status _ = _, Hb : fst (next_behav _) = _ |- _ => rewrite Hst, Hb end;
+  cbn; repeat split; try reflexivity; eauto.
+
 Lemma send_retry_post fuel : forall retried p cmds,
   measure p retried <= fuel ->
   let (p', r) := send_retry fuel retried p cmds in
@@ -94,44 +140,53 @@ Proof.
   induction fuel as [|fuel IH]; intros retried p cmds Hm.
   - unfold measure in Hm. destruct retried; lia.
   - cbn [send_retry].
+    assert (Hgood : forall st, good_status st = true -> p_status p = st ->
+      let (p', r) :=
+        match fst (next_behav p) with
+        | Accept => (set_httpok true (attempt p cmds true true), ROk)
+        | Reject code msg => (set_httpok true (attempt p cmds true false), RErr code msg)
+        | RejectPlain msg =>
+            let p' := conn_failed msg (set_httpok true (attempt p cmds true false)) in
+            (p', RErr 500 (p_lasterr p'))
+        | Drop => (attempt p cmds false true, ROk)
+        | Refuse =>
+            if http_ok p
+            then let p' := conn_failed msg_httperr (set_httpok false (attempt p cmds false false)) in
+                 (p', RErr 500 (p_lasterr p'))
+            else let p' := conn_failed msg_connerr (attempt p cmds false false) in
+                 if retried then (p', RErr 500 msg_retries) else send_retry fuel true p' cmds
+        | HttpBroken rc =>
+            let p' := conn_failed msg_httperr (set_httpok false (attempt p cmds rc false)) in
+            (p', RErr 500 (p_lasterr p'))
+        end in
+      post retried (p_id p) (p_trace p) (p_log p) (p_sched p) cmds p' r /\ r <> RFuel).
+    { intros st Hg Hst. destruct (fst (next_behav p)) as [|code msg|msg| | |rc] eqn:Hb.
+      - one_attempt [cmds].
+      - one_attempt [cmds].
+      - one_attempt [cmds].
+      - one_attempt (@nil (list str)).
+      - destruct (http_ok p).
+        + one_attempt (@nil (list str)).
+        + destruct retried.
+          * one_attempt (@nil (list str)).
+          * set (p1 := conn_failed msg_connerr (attempt p cmds false false)) in *.
+            assert (Hm1 : measure p1 true <= fuel).
+            { unfold measure in *. subst p1. psimp. lia. }
+            specialize (IH true p1 cmds Hm1).
+            destruct (send_retry fuel true p1 cmds) as [p' r].
+            destruct IH as [(Pi & dt & dl & Pt & Pl & Psh) Pf].
+            split; [|exact Pf]. split; [rewrite Pi; subst p1; psimp; reflexivity|].
+            exists ((st, Refuse) :: dt), dl.
+            rewrite Pt, Pl. subst p1. psimp. rewrite Hst, Hb, <- app_assoc. cbn [app].
+            split; [reflexivity|]. split; [reflexivity|].
+            revert Psh. psimp. intros Psh.
+            destruct dt as [|[s b] [|x dt]]; cbn [call_shape] in *.
+            -- destruct Psh as (-> & -> & Hr'). cbn. repeat split; try reflexivity; assumption.
+            -- destruct Psh as (Hg' & He). repeat split; try reflexivity; assumption.
+            -- destruct x. destruct dt; [|contradiction]. destruct Psh as (Hf & _). discriminate.
+      - destruct rc; [one_attempt [cmds]|one_attempt (@nil (list str))]. }
     destruct (p_status p) eqn:Hst.
-    + (* Up *)
-      pose proof (attempt_proj p cmds) as HA.
-      destruct (fst (next_behav p)) eqn:Hb.
-      * destruct (HA true true) as (Hi & _ & _ & _ & _ & Ht & Hl & Hs & _).
-        split; [|discriminate]. split; [exact Hi|].
-        exists [(Up, Accept)], [cmds]. rewrite Ht, Hl, Hs, Hst. cbn. auto 12.
-      * destruct (HA true false) as (Hi & _ & _ & _ & _ & Ht & Hl & Hs & _).
-        split; [|discriminate]. split; [exact Hi|].
-        exists [(Up, Reject code msg)], [cmds]. rewrite Ht, Hl, Hs, Hst. cbn. auto 12.
-      * destruct (HA true false) as (Hi & _ & _ & _ & _ & Ht & Hl & Hs & _).
-        destruct (conn_failed_proj msg (attempt p cmds true false)) as (Ci & _ & Ct & Cl & Cs & _ & Ce).
-        split; [|discriminate]. split; [congruence|].
-        exists [(Up, RejectPlain msg)], [cmds]. rewrite Ct, Cl, Cs, Ce, Ht, Hl, Hs, Hst. cbn. auto 12.
-      * destruct (HA false true) as (Hi & _ & _ & _ & _ & Ht & Hl & Hs & _).
-        split; [|discriminate]. split; [exact Hi|].
-        exists [(Up, Drop)], []. rewrite Ht, Hl, Hs, Hst, app_nil_r. cbn. auto 12.
-      * destruct (HA false false) as (Hi & _ & _ & _ & Hr & Ht & Hl & Hs & _).
-        destruct (conn_failed_proj msg_connerr (attempt p cmds false false)) as (Ci & Cr & Ct & Cl & Cs & _ & Ce).
-        destruct retried.
-        -- split; [|discriminate]. split; [congruence|].
-           exists [(Up, Refuse)], []. rewrite Ct, Cl, Cs, Ht, Hl, Hs, Hst, app_nil_r. cbn.
-           repeat split; try reflexivity. right; eexists; reflexivity.
-        -- set (p1 := conn_failed msg_connerr (attempt p cmds false false)) in *.
-           assert (Hm1 : measure p1 true <= fuel).
-           { unfold measure in *. rewrite Cr, Hr. lia. }
-           specialize (IH true p1 cmds Hm1).
-           destruct (send_retry fuel true p1 cmds) as [p' r].
-           destruct IH as [(Pi & dt & dl & Pt & Pl & Psh) Pf].
-           split; [|exact Pf]. split; [congruence|].
-           exists ((Up, Refuse) :: dt), dl.
-           rewrite Pt, Pl, Ct, Cl, Ht, Hl, Hst, <- app_assoc. cbn [app].
-           split; [reflexivity|]. split; [reflexivity|].
-           rewrite Cs, Hs in Psh.
-           destruct dt as [|[s b] [|x dt]]; cbn [call_shape] in *.
-           ++ destruct Psh as (-> & -> & Hr'). cbn. repeat split; try reflexivity; assumption.
-           ++ destruct Psh as (Hg & He). repeat split; try reflexivity; assumption.
-           ++ destruct x. destruct dt; [|contradiction]. destruct Psh as (Hf & _). discriminate.
+    + (* Up *) exact (Hgood Up eq_refl eq_refl).
     + (* Warning *)
       destruct (p_resolve p) as [|s rest] eqn:Hres.
       * split; [|discriminate]. split; [reflexivity|]. exists [], []. rewrite !app_nil_r. cbn. auto 12.
@@ -152,43 +207,7 @@ Proof.
         assert (Hm1 : measure p1 retried <= fuel).
         { unfold measure in *. subst p1. cbn. rewrite Hres in Hm. cbn [length] in Hm. lia. }
         specialize (IH retried p1 cmds Hm1). subst p1. cbn in IH. exact IH.
-    + (* Syncing *)
-      pose proof (attempt_proj p cmds) as HA.
-      destruct (fst (next_behav p)) eqn:Hb.
-      * destruct (HA true true) as (Hi & _ & _ & _ & _ & Ht & Hl & Hs & _).
-        split; [|discriminate]. split; [exact Hi|].
-        exists [(Syncing, Accept)], [cmds]. rewrite Ht, Hl, Hs, Hst. cbn. auto 12.
-      * destruct (HA true false) as (Hi & _ & _ & _ & _ & Ht & Hl & Hs & _).
-        split; [|discriminate]. split; [exact Hi|].
-        exists [(Syncing, Reject code msg)], [cmds]. rewrite Ht, Hl, Hs, Hst. cbn. auto 12.
-      * destruct (HA true false) as (Hi & _ & _ & _ & _ & Ht & Hl & Hs & _).
-        destruct (conn_failed_proj msg (attempt p cmds true false)) as (Ci & _ & Ct & Cl & Cs & _ & Ce).
-        split; [|discriminate]. split; [congruence|].
-        exists [(Syncing, RejectPlain msg)], [cmds]. rewrite Ct, Cl, Cs, Ce, Ht, Hl, Hs, Hst. cbn. auto 12.
-      * destruct (HA false true) as (Hi & _ & _ & _ & _ & Ht & Hl & Hs & _).
-        split; [|discriminate]. split; [exact Hi|].
-        exists [(Syncing, Drop)], []. rewrite Ht, Hl, Hs, Hst, app_nil_r. cbn. auto 12.
-      * destruct (HA false false) as (Hi & _ & _ & _ & Hr & Ht & Hl & Hs & _).
-        destruct (conn_failed_proj msg_connerr (attempt p cmds false false)) as (Ci & Cr & Ct & Cl & Cs & _ & Ce).
-        destruct retried.
-        -- split; [|discriminate]. split; [congruence|].
-           exists [(Syncing, Refuse)], []. rewrite Ct, Cl, Cs, Ht, Hl, Hs, Hst, app_nil_r. cbn.
-           repeat split; try reflexivity. right; eexists; reflexivity.
-        -- set (p1 := conn_failed msg_connerr (attempt p cmds false false)) in *.
-           assert (Hm1 : measure p1 true <= fuel).
-           { unfold measure in *. rewrite Cr, Hr. lia. }
-           specialize (IH true p1 cmds Hm1).
-           destruct (send_retry fuel true p1 cmds) as [p' r].
-           destruct IH as [(Pi & dt & dl & Pt & Pl & Psh) Pf].
-           split; [|exact Pf]. split; [congruence|].
-           exists ((Syncing, Refuse) :: dt), dl.
-           rewrite Pt, Pl, Ct, Cl, Ht, Hl, Hst, <- app_assoc. cbn [app].
-           split; [reflexivity|]. split; [reflexivity|].
-           rewrite Cs, Hs in Psh.
-           destruct dt as [|[s b] [|x dt]]; cbn [call_shape] in *.
-           ++ destruct Psh as (-> & -> & Hr'). cbn. repeat split; try reflexivity; assumption.
-           ++ destruct Psh as (Hg & He). repeat split; try reflexivity; assumption.
-           ++ destruct x. destruct dt; [|contradiction]. destruct Psh as (Hf & _). discriminate.
+    + (* Syncing *) exact (Hgood Syncing eq_refl eq_refl).
 Qed.
 
 Lemma fuel_ok p : measure p false <= fuel_for p.
@@ -215,7 +234,7 @@ Definition attempts_ok (dt : list (pstatus * behav)) : Prop :=
 
 Lemma last_effect_dl b cmds dl r s0 s1 :
   last_effect b cmds dl r s0 s1 -> dl = (if received b then [cmds] else []).
-Proof. destruct b; cbn; intros H; decompose [and] H; assumption. Qed.
+Proof. destruct b as [| | | | |[]]; cbn; intros H; decompose [and] H; assumption. Qed.
 
 Lemma last_effect_sched b cmds dl r s0 s1 :
   last_effect b cmds dl r s0 s1 ->
@@ -265,6 +284,25 @@ Proof.
     + intros s c m [H|[H|[]]]; inversion H; subst. apply Hs4; reflexivity.
     + intros s m [H|[H|[]]]; inversion H; subst. apply Hs5; reflexivity.
   - contradiction.
+Qed.
+
+(** a batch that an attempt delivered is not sent again: the attempt that
+    reached the backend is the last one of the call, everything before it
+    failed to connect *)
+Definition answered_last (dt : list (pstatus * behav)) : Prop :=
+  forall s b, In (s, b) dt -> received b = true ->
+    exists pre, dt = pre ++ [(s, b)] /\ Forall (fun sb => snd sb = Refuse) pre.
+
+Lemma attempts_ok_answered_last dt : attempts_ok dt -> answered_last dt.
+Proof.
+  intros (Hlen & Htwo & _ & _) s b Hin Hrc.
+  destruct dt as [|x [|y [|z l]]].
+  - contradiction.
+  - destruct Hin as [->|[]]. exists []. split; [reflexivity|constructor].
+  - pose proof (Htwo x y eq_refl) as Hx. destruct Hin as [->|[->|[]]].
+    + cbn [snd] in Hx. subst b. discriminate.
+    + exists [x]. split; [reflexivity|]. constructor; [exact Hx|constructor].
+  - cbn [length] in Hlen. lia.
 Qed.
 
 (** *** one backend, one flush *)
@@ -363,27 +401,12 @@ Lemma send_reliable p cmds :
   reliable p -> reliable (fst (send p cmds)) /\ p_log (fst (send p cmds)) = p_log p ++ [cmds].
 Proof.
   intros [Hg Hs]. unfold send, fuel_for. rewrite Nat.add_comm. cbn [Nat.add send_retry].
-  destruct (p_status p) eqn:Hst; try discriminate.
-  - unfold reliable. pose proof (attempt_proj p cmds) as HA.
-    unfold next_behav in *. destruct (p_script p) as [|b rest] eqn:Hsc; cbn [fst snd] in *.
-    + destruct (HA true true) as (_ & Hs' & _ & _ & _ & _ & Hl & _ & Hsc' & _). cbn [fst].
-      rewrite Hs', Hst, Hsc', Hl. auto.
-    + inversion Hs as [|? ? Hb Hrest]; subst.
-      destruct Hb as [->|(c & m & ->)]; cbn [fst].
-      * destruct (HA true true) as (_ & Hs' & _ & _ & _ & _ & Hl & _ & Hsc' & _).
-        rewrite Hs', Hst, Hsc', Hl. auto.
-      * destruct (HA true false) as (_ & Hs' & _ & _ & _ & _ & Hl & _ & Hsc' & _).
-        rewrite Hs', Hst, Hsc', Hl. auto.
-  - unfold reliable. pose proof (attempt_proj p cmds) as HA.
-    unfold next_behav in *. destruct (p_script p) as [|b rest] eqn:Hsc; cbn [fst snd] in *.
-    + destruct (HA true true) as (_ & Hs' & _ & _ & _ & _ & Hl & _ & Hsc' & _). cbn [fst].
-      rewrite Hs', Hst, Hsc', Hl. auto.
-    + inversion Hs as [|? ? Hb Hrest]; subst.
-      destruct Hb as [->|(c & m & ->)]; cbn [fst].
-      * destruct (HA true true) as (_ & Hs' & _ & _ & _ & _ & Hl & _ & Hsc' & _).
-        rewrite Hs', Hst, Hsc', Hl. auto.
-      * destruct (HA true false) as (_ & Hs' & _ & _ & _ & _ & Hl & _ & Hsc' & _).
-        rewrite Hs', Hst, Hsc', Hl. auto.
+  assert (Hnb : next_behav p = match p_script p with [] => (Accept, []) | b :: r => (b, r) end) by reflexivity.
+  destruct (p_status p) eqn:Hst; try discriminate;
+    (destruct (p_script p) as [|b rest] eqn:Hsc;
+     [ rewrite Hnb; cbn [fst]; unfold reliable; psimp; rewrite Hst, Hnb; cbn; auto
+     | inversion Hs as [|? ? Hb Hrest]; subst; destruct Hb as [->|(c & m & ->)];
+       rewrite Hnb; cbn [fst]; unfold reliable; psimp; rewrite Hst, Hnb; cbn; auto ]).
 Qed.
 
 (** delivered_is_ordered_subseq, exact part *)
@@ -836,6 +859,21 @@ Proof.
   intros ps ws. rewrite connection_routing. apply Forall2_map_self. intros p _.
   destruct (run_peer_history (flushes ws) p) as (ts & H1 & H2 & H3 & H4 & _).
   exact (ex_intro _ ts (conj H1 (conj H2 (conj H3 H4)))).
+Qed.
+
+Lemma thm_C15_answered_batch_not_resent :
+  forall (ps : list peer) (ws : list write),
+    Forall2 (fun p p' =>
+      exists ts : list (list (pstatus * behav)),
+        length ts = length (batches_for (p_id p) (flushes ws)) /\
+        p_trace p' = p_trace p ++ concat ts /\
+        Forall answered_last ts)
+    ps (fst (connection ps ws)).
+Proof.
+  intros ps ws. rewrite connection_routing. apply Forall2_map_self. intros p _.
+  destruct (run_peer_history (flushes ws) p) as (ts & H1 & H2 & H3 & _).
+  exists ts. split; [exact H1|]. split; [exact H3|].
+  eapply Forall_impl; [|exact H2]. exact attempts_ok_answered_last.
 Qed.
 
 Lemma thm_C15_never_to_down :
